@@ -152,7 +152,8 @@ def check(chk):
     chk.ob("TABLE-9", "the decoder recognises exactly the encoder's tags", set(dtags) == {"int:", "float:", "bool:", "nonetype:"}, dec.where(),
            detail=str(sorted(dtags)), construct=dec.ident, text="decoder tags %s" % sorted(dtags))
     stores = [n for n in dcfg.nodes_where(lambda n: n.kind == "stmt" and isinstance(n.ast, ast.Assign) and src(n.ast.targets[0]) == "kwargs[name]")]
-    chk.expect(len(stores) >= 6, "C19: decoder result stores lost (%d)" % len(stores))
+    if len(stores) < 6:
+        chk.missing("TABLE-9", "the decoder stores a value on each of its six branches (int, float, true, false, None, text); found %d" % len(stores), dec)
     for n in stores:
         v = n.ast.value
         g = dcfg.guards_at(n.id)
